@@ -23,6 +23,7 @@ func checkC18(c *chk.Ctx) {
 		"R18b a shard's hash range is only written when the shard is created (or cloned)",
 		"R18c producers map Min->MinHashInclusive and Max->MaxHashInclusive, the client maps them to MinInclusive/MaxInclusive, and both client predicates (membership, overlap) agree with the inclusive-range truth table for every ordering of their operands; every non-deleting shard is published",
 		"R18d the only routing hash is the client strategy's xxhash3-32, and both producers advertise that router",
+		"R18h a compare-and-set of the cluster status writes a status computed from the snapshot whose version it presents (shared with C05): the id generator is never rolled back by a stale copy",
 		"R18g a cluster status built from an existing one (a literal that copies any field of another status) also copies its shard id generator: no derived status restarts the ids at zero",
 		"R18f a new namespace gets a shard for every generated range (open finding F19: a failed ensemble selection skips the shard but still creates the namespace)",
 	}
@@ -36,6 +37,7 @@ func checkC18(c *chk.Ctx) {
 	ruleR18d(h)
 	ruleR18f(h)
 	ruleR18g(h)
+	ruleStatusSwapFresh(h, "R18h")
 }
 
 func ruleR18a(h *H) {
